@@ -439,11 +439,18 @@ func e18DiffCase(pkg string, seed uint64, n int, foreign string) Case {
 			var sent []evrec
 			for _, e := range log0 {
 				m, _ := e.Obj.(metav1.Object)
-				sent = append(sent, evrec{Key: kit.Key(m), RV: m.GetResourceVersion()})
+				typ := kcacheUpdate
+				switch e.Type {
+				case "ADDED":
+					typ = kcacheCreate
+				case "DELETED":
+					typ = kcacheDelete
+				}
+				sent = append(sent, evrec{Type: typ, Key: kit.Key(m), RV: m.GetResourceVersion()})
 			}
 			j := 0
 			for _, e := range got {
-				for j < len(sent) && sent[j].RV != e.RV {
+				for j < len(sent) && !sameEvent(e, sent[j]) {
 					j++
 				}
 				if j == len(sent) {
